@@ -358,6 +358,35 @@ CLAIMED['C02'] = dict(
         design_ref="DESIGN.md 5 C02",
     )
 
+CLAIMED['C04'] = dict(
+        technique="Coq proof over a hand-written model of ExcelFormula.needed_addresses (token stream of the emitted "
+                  "code, the NAME ( STRING ) scan with the generated ADDR_FUNCS_NAMES, uniqueify: coq/Model/Scan.v) and "
+                  "of the read trace of the compiled code, on top of the C02 emitter model; extracted-model/"
+                  "implementation differential run (needed_addresses and python_code, exact); an oracle on real "
+                  "openpyxl workbooks compiled by ExcelCompiler with the two run-time read paths wrapped",
+        text="Machine-checked (Coq 8.16, 3 theorems in coq/Props/C04.v, closed under the global context). FULL for the "
+             "model, all expressions of any size: C04_cover (for every expression whose references are written - no "
+             "range-union between computed references, nothing outside the emitter model - every address the "
+             "compiled code can read through _C_/_R_ is among the scanned precedents, or is a range computed by "
+             "the intersection operator from scanned precedents only, hence contained in them by C11_intersection), "
+             "C04_scan_complete (the token scan finds every _C_/_R_/_REF_(\"..\") call node anywhere in the emitted "
+             "tree, also inside regions renamed to _REF_: ROW/COLUMN arguments, operands of reference operators), "
+             "C04_addr_names (the scanned names are the generated ADDR_FUNCS_NAMES). NOT PROVED (oracle only): "
+             "C04_edges / C04_influence of the design (dep_graph gets an edge for every declared precedent and for "
+             "every member of a range node; ancestors are a superset of the influencers) - graph construction "
+             "(_process_gen_graph, _make_cells) has no Coq model; the model's trace is the set of _C_/_R_ call "
+             "nodes (Python's strict evaluation), not an instrumented evaluator. CORRESPONDENCE: every quick run "
+             "compares Model/Scan.v needed and Model/Emit.v code with ExcelFormula.needed_addresses / python_code "
+             "on ~13k formula texts rich in references (plain, $, lower case, sheet-qualified, ranges, nested "
+             "intersections, ROW/COLUMN/INDEX/IF/SUM arguments), 0 divergences (~7% outside the emitter model: "
+             "multi-colon, whole-row/column references, arrays). ORACLE on the implementation: 250 PRNG workbooks "
+             "(2 sheets, 20 reference-form templates incl. defined names, multi-colon, union, ROW()/COLUMN(), CSE "
+             "members, chains) - every traced (formula cell, address read) pair is a declared precedent or lies "
+             "inside a declared range with a member -> range -> dependant path in dep_graph, every declared "
+             "precedent has its edge, and perturbing a non-ancestor input never changes a value.",
+        design_ref="DESIGN.md 5 C04",
+    )
+
 NOT_YET = "check not built yet in this round (planned: DESIGN.md section 7 lists the build order)"
 
 
